@@ -55,7 +55,8 @@ def check(run):
         hist = [h for h in hist if int(h.split(" ")[1], 16) < 2 * cap or h.startswith("app")]
         for j in range(len(hist)):
             for fail_at in range(0, 3 * depth + 6):
-                seq = [f"tree new pmdisk {depth}"] + hist[:j] + ["next", f"arm {fail_at}", hist[j], "fired", f"reopen {depth}", "next"]
+                # the property promises persistence after a successful flush: flush (unarmed) before reopening
+                seq = [f"tree new pmdisk {depth}"] + hist[:j] + ["next", f"arm {fail_at}", hist[j], "fired", "close", f"reopen {depth}", "next"]
                 seq += [f"get {hex(i)}" for i in range(cap)]
                 lines_all.append(seq)
                 meta.append((depth, j, fail_at))
@@ -74,7 +75,7 @@ def check(run):
         s2 = list(seq)
         if fired:
             s2[j - 1] = "next"
-        for t in range(j + 3, len(seq)):
+        for t in range(j + 4, len(seq)):
             if int(seq[t].split(" ")[1], 16) in addr:
                 s2[t] = "next"
         spec_lines.append(s2)
@@ -96,12 +97,12 @@ def check(run):
         elif not fired and I[j - 1] != S[j - 1] and "n/a" not in (S[j - 1],):
             bad = f"`{seq[j - 1]}` without a failure: {I[j - 1]} but the ideal tree says {S[j - 1]}"
         else:
-            for t in range(j + 3, n):
+            for t in range(j + 4, n):
                 if int(seq[t].split(" ")[1], 16) not in addr and I[t] != S[t]:
                     bad = f"after a reported failure and reopen, `{seq[t]}` = {I[t]} but the last acknowledged value is {S[t]}"
                     break
-            if not bad and not fired and I[j + 2] != S[j + 2]:
-                bad = f"leaf count after reopen {I[j + 2]} but the ideal tree says {S[j + 2]}"
+            if not bad and not fired and I[j + 3] != S[j + 3]:
+                bad = f"leaf count after reopen {I[j + 3]} but the ideal tree says {S[j + 3]}"
         if bad:
             run.cov["impl_vs_spec_failures"] += 1
             if len(run.violations) < 3:
